@@ -3,6 +3,7 @@ package props
 import (
 	"github.com/jrhy/mast"
 
+	"verif/internal/doubles"
 	"verif/internal/fw"
 	"verif/internal/kinds"
 	"verif/internal/ref"
@@ -162,6 +163,36 @@ func runC15(c *fw.C) {
 	if writerCache {
 		nt = p.New.T // persisted and re-opened through the writer's cache
 		c.Obs("pairs_new_side_through_writer_cache", 1)
+		// the writer changes something, reverts it and persists again: the version is
+		// the one already written (and cached), and must be recognised as such
+		if p.New.M.Len() > 0 && r.Bool() {
+			j := r.Intn(p.New.M.Len())
+			k, v := p.New.M.Keys[j], p.New.M.Vals[j]
+			if nt.Delete(e.Ctx, k, deepCopy(v)) == nil && nt.Insert(e.Ctx, k, deepCopy(v)) == nil {
+				if rt, err := nt.MakeRoot(e.Ctx); err != nil || !sameRoot(rt, p.New.Root) {
+					c.Obs("writer_revert_changed_root", 1)
+					return
+				}
+				c.Obs("pairs_writer_reverted_to_written_version", 1)
+			} else {
+				return
+			}
+		}
+	} else if p.OE == e && c.Idx != -1 && fw.Mix(c.Seed, uint64(c.Idx), 78)%4 == 0 {
+		// replica: the old version is read from a copy of its nodes in another store
+		// (another NodeURLPrefix); common subtrees still have the same names
+		replica := doubles.NewStore()
+		for nme := range ro {
+			b, _ := e.Store.Get(nme)
+			replica.Put(nme, b)
+		}
+		re := *e
+		re.Store, re.Persist, re.Cache = replica, replica, nil
+		if rot, err := re.Load(p.Old.Root); err == nil {
+			ot = rot
+			p.OE = &re
+			c.Obs("pairs_old_side_on_replica_store", 1)
+		}
 	}
 	if D == 0 {
 		c.Obs("pairs_d0", 1)
